@@ -258,7 +258,27 @@ class LSched(Sched):
         self.max_steps = 4000
         self.skipped_cancels = 0
         self.choices: list[int] = []            # index actually released at each choice point
+        self._keep: list = []
         self.skip_pointless = bool(run.case.get("skip_pointless"))
+
+    async def point(self, label: Any = None):
+        """Sched.point, keeping a strong reference to every future a task ever parked on.  A second coroutine running under
+        the same task id (e.g. a body that the code under test moved into a task of its own and orphaned) can overwrite the
+        `parked` entry of the first; the shadowed one would then be reachable only through itself and be destroyed whenever
+        the cyclic garbage collector happens to run - its `finally` blocks would log at an arbitrary point of the run."""
+        tid = TASK_ID.get()
+        if tid is None:
+            return
+        fut = asyncio.get_running_loop().create_future()
+        self._keep.append(fut)
+        self.parked[tid] = (fut, label)
+        if self._wake is not None:
+            self._wake.set()
+        try:
+            await fut
+        finally:
+            if self.parked.get(tid, (None,))[0] is fut:
+                self.parked.pop(tid, None)
 
     def _pointless(self, tid) -> bool:
         fut, label = self.parked[tid]
